@@ -18,15 +18,26 @@ RULE = ("seeded generator. (a) sequential call sequences (15-45 calls) on the re
         "(b) concurrent histories, 2-4 goroutines x 3-5 calls on 1-2 user ids + a sequential read-back epilogue, call/return stamps from one "
         "atomic counter, accepted iff Lin.lin_check (Wing-Gong search, evaluated in the Coq kernel) finds a linearization of the model. "
         "(c) stress: 8 loggers x 20000 reports with clearing pollers, plain readers and kickers; conservation computed from results alone. "
-        "Non-trivial = a sequence with a refused report and >= 2 snapshots, a history with really overlapping calls, a stress run with clears.")
+        "(d) end to end: a real core/server with the stats server as TrafficLogger and real core/client connections over loopback; the harness "
+        "holds both ends of every proxied flow, so scripts (connect / reject / close / kick / move n bytes up or down a TCP stream or UDP "
+        "session) make a kicked user's NEXT report come from each of the four LogTraffic call sites of core/server (TCP upload, TCP download, "
+        "UDP upload = udpIOImpl.ReceiveMessage, UDP download = udpIOImpl.SendMessage), on a flow established before the kick and on one "
+        "opened after it (7 directed scripts per run + random ones); observed per step: every LogTraffic/LogOnlineState call at the logger "
+        "boundary, delivery at the far end, whether a proxy attempt on the connection still succeeds, GET /online; verdict: refused exactly "
+        "once, nothing forwarded, connection closed by the server, one offline notification, listing drops the user, totals conserved; the "
+        "observed event sequence is replayed on the world model of model/C15_Sites.v. "
+        "Non-trivial = a sequence with a refused report and >= 2 snapshots, a history with really overlapping calls, a stress run with clears, "
+        "an e2e run with a refusal.")
 ASSUMPTIONS = [
     "sync.RWMutex gives mutual exclusion between a write section and every other section (runtime, not modelled); each method body is one section",
     "encoding/json (Marshal of the maps, Decoder.Decode of the kick body), net/url query parsing and net/http's ResponseWriter are libraries: the model takes the decoded id list / query value as input",
     "online/offline notifications are paired by the server (once per accepted auth, once when that connection's handler returns): hypothesis `paired` of C15_online_exact, owed by C01",
-    "a refused report disconnects the client: core/server closes the QUIC connection at server.go:339-342,375-381,388-394 and copy.go:27-30 (read, not modelled here)",
+    "after quic.Conn.CloseWithError no stream or datagram of that connection carries bytes any more and http3's ServeQUICConn returns (quic-go; modelled as: a closed connection makes no report, its handler may return); observed end to end on every refused step",
+    "TCP sites: the refusing copy direction's errDisconnect is the first value to reach copyTwoWayEx's channel (hypothesis `other_first = false` of the site theorems; the other case is C06's open finding veto-swallowed-other-direction-returned-first)",
     "fewer than 2^63 online notifications per user (Go int wrap), stated as a hypothesis of the online theorems",
 ]
 TRUSTED = ["modelled rather than verified: extras/trafficlogger/http.go (hand transcription in coq/model/C15_Stats.v; one model operation per mutex critical section)",
+           "modelled rather than verified: the code after the four LogTraffic call sites and the online/offline notifications of core/server (server.go handleClient, ServeHTTP, handleTCPRequest, udpIOImpl.ReceiveMessage/SendMessage, copy.go) in coq/model/C15_Sites.v, tied by the end-to-end runs",
            "linearizability of the real object is sampled (recorded histories checked by lib/Lin.v, whose soundness is proved), not proved"]
 PER_SHARD = 45
 EXTRA_TARGETS = ["corr/C15_Corr.vo"]
@@ -648,9 +659,11 @@ LEVEL_TEXT = ("Machine-checked Coq theorems over a Gallina model of trafficStats
               "section): for every operation sequence - hence for every interleaving of LogTraffic, LogOnlineState, GET /traffic with or without "
               "clear, POST /kick, GET /online - cleared snapshots + final snapshot = accepted bytes per user and direction (mod 2^64, and exactly "
               "below 2^64), a report is refused iff a kick of that user is pending and the refusal consumes it, the online listing shows exactly "
-              "the live connection count and never a non-positive entry. The model is tied to /repo on every run by a call-by-call differential "
+              "the live connection count and never a non-positive entry; and over a world model of core/server's connections and its four traffic-report "
+              "sites: a refused report at any site closes exactly that QUIC connection, the listing follows the connections for every event sequence, "
+              "a pending kick disconnects the user at its next report wherever it is made. The model is tied to /repo on every run by a call-by-call differential "
               "run of the real handler and by recorded concurrent histories checked for linearizability in the Coq kernel (lib/Lin.v, soundness proved).")
 LEVEL_NOTE = ("Trusted: Coq kernel + vm_compute; hand-written model; sync.RWMutex; encoding/json, net/http. No axioms. Linearizability of the Go object "
-              "is sampled, not proved. The pairing of online/offline notifications by core/server and the disconnect on a refused report are read, not modelled.")
+              "is sampled, not proved. The pairing of online/offline notifications by core/server and the disconnect on a refused report are modelled (C15_Sites.v) and observed end to end; quic-go's close semantics are trusted.")
 TECHNIQUE = "Coq proof (induction over operation sequences of an atomic-object model) + differential and linearizability correspondence checks in vm_compute"
 DESIGN_REF = "DESIGN.md section 4 C15"
